@@ -5,6 +5,7 @@ import (
 	"fmt"
 	"os"
 	"path/filepath"
+	"sort"
 	"strings"
 	"sync/atomic"
 	"syscall"
@@ -664,7 +665,7 @@ func checkC15(tier, replay string) int {
 	ctx.Cov["runs_in_which_the_target_started"] = ranTarget
 	ctx.Cov["runs_that_must_be_refused"] = refused
 	ctx.Cov["probe_events_observed_by_the_target"] = probes
-	ctx.Cov["rule"] = "the built cmd/sandbox binary is run with a probe target (a separate program that first appends a marker line, then issues probe syscalls for every partition cell of the policy) on: 11 base policy files (one listing a syscall twice with entries for other syscalls in between and a three-condition list, one spelling all eight operations and the actions in non-canonical letter case, one whose first group ends with a conditional entry for a syscall the second group names unconditionally) (incl. two under which execve is not allowed: no target can be started) whole (root / uid 65534 / with -no-new-privs=false / non-existent target / nested inside an outer sandbox whose policy answers errno to seccomp(2), so that the kernel refuses the filter; under a tracer that answers every seccomp(2) call itself - with a positive result, which is how a refused thread-sync is reported, or with ESRCH / ENOMEM / EINVAL / EACCES / EFAULT - so that nothing is installed), every line prefix and every byte prefix inside the first and last rule (thorough: every byte prefix), 13 defect kinds per base plus names, actions and defaults written as references to environment variables that are set in every run (${VAR}, ${VAR:default}, $VAR, %{VAR}), an unknown name, and two names that only other architectures' tables have, at every position where a syscall name stands, JSON renderings with operands that need all 64 bits (unknown action/default/syscall/operation, wrong key, no syscalls, non-YAML, tab indentation, empty, argument 6 / -1, non-numeric value, duplicate name), a policy compiling to > 4096 instructions, ten nested sandbox commands with a 4.0k-instruction policy (the kernel refuses one of them with ENOMEM), a policy whose first group needs long jumps (70 conditional entries) followed by a second group, files of 4 KiB to 1 MiB in which a comment block pushes the last group to byte offset L-1, L, L+1 for L in {4096, ..., 65536, 131072, 1 MiB}, a missing file (also a relative and the default name that exist next to the command's executable and in HOME, but not in the working directory) and a directory; for four files that allow every syscall of the table by name (so that the default action decides nothing the command needs) - default_action omitted, allow, errno, kill_process - the program the command hands to seccomp(2), read from a tracer's decoding, equals the program compiled from the policy the file denotes; the same bytes are loaded by the harness through ucfg: if that fails, the policy is invalid or the kernel must refuse, the run must exit non-zero with no marker; otherwise the marker exists and the target's observations equal the reference decisions of the policy the file denotes"
+	ctx.Cov["rule"] = "the built cmd/sandbox binary is run with a probe target (a separate program that first appends a marker line, then issues probe syscalls for every partition cell of the policy) on: 11 base policy files (one listing a syscall twice with entries for other syscalls in between and a three-condition list, one spelling all eight operations and the actions in non-canonical letter case, one whose first group ends with a conditional entry for a syscall the second group names unconditionally) (incl. two under which execve is not allowed: no target can be started) whole (root / uid 65534 / with -no-new-privs=false / non-existent target / nested inside an outer sandbox whose policy answers errno to seccomp(2), so that the kernel refuses the filter; under a tracer that answers every seccomp(2) call itself - with a positive result, which is how a refused thread-sync is reported, or with ESRCH / ENOMEM / EINVAL / EACCES / EFAULT - so that nothing is installed), every line prefix and every byte prefix inside the first and last rule (thorough: every byte prefix), 13 defect kinds per base plus names, actions and defaults written as references to environment variables that are set in every run (${VAR}, ${VAR:default}, $VAR, %{VAR}), an unknown name, and two names that only other architectures' tables have, at every position where a syscall name stands, JSON renderings with operands that need all 64 bits (unknown action/default/syscall/operation, wrong key, no syscalls, non-YAML, tab indentation, empty, argument 6 / -1, non-numeric value, duplicate name), a policy compiling to > 4096 instructions, ten nested sandbox commands with a 4.0k-instruction policy (the kernel refuses one of them with ENOMEM), a policy whose first group needs long jumps (70 conditional entries) followed by a second group, files of 4 KiB to 1 MiB in which a comment block pushes the last group to byte offset L-1, L, L+1 for L in {4096, ..., 65536, 131072, 1 MiB}, a missing file (also a relative and the default name that exist next to the command's executable and in HOME, but not in the working directory) and a directory; for four files that allow every syscall of the table by name (so that the default action decides nothing the command needs) - default_action omitted, allow, errno, kill_process - and for every base file, the program the command hands to seccomp(2), read from a tracer's decoding, equals the program compiled from the policy the file denotes; the same bytes are loaded by the harness through ucfg: if that fails, the policy is invalid or the kernel must refuse, the run must exit non-zero with no marker; otherwise the marker exists and the target's observations equal the reference decisions of the policy the file denotes"
 	ctx.Assumptions = []string{"a truncated file that still parses is a different valid policy and is judged as such", "probe syscalls ignore arguments", "fault points before exec are realised through inputs (file defects, kernel refusals), not by interrupting the sandbox process"}
 	if replay != "" {
 		return finishReplay(ctx)
@@ -707,8 +708,24 @@ func c15InstalledPrograms(ctx *evid.Ctx, a *refsem.Arch, sandbox, scratch string
 		}
 	}
 	n := 0
+	type inst struct{ def, text string }
+	var files []inst
 	for _, def := range []string{"", "  default_action: allow\n", "  default_action: errno\n", "  default_action: kill_process\n"} {
-		text := "seccomp:\n" + def + "  syscalls:\n  - action: allow\n    names:\n" + names.String() + "  - action: errno\n    names:\n    - getsid\n"
+		files = append(files, inst{def, "seccomp:\n" + def + "  syscalls:\n  - action: allow\n    names:\n" + names.String() + "  - action: errno\n    names:\n    - getsid\n"})
+	}
+	// and every base file (all of them state a default other than kill_thread, so the command does not hang)
+	var baseNames []string
+	for name := range c15Bases {
+		baseNames = append(baseNames, name)
+	}
+	sort.Strings(baseNames)
+	for _, name := range baseNames {
+		if !strings.Contains(c15Bases[name], "kill_thread") {
+			files = append(files, inst{"base " + name, c15Bases[name]})
+		}
+	}
+	for _, fl := range files {
+		def, text := fl.def, fl.text
 		rep := map[string]any{"installed_program": true, "default_action_line": strings.TrimSpace(def)}
 		p, err := loadThroughConfigPath([]byte(text))
 		if err != nil {
